@@ -6,6 +6,7 @@ import (
 	"fmt"
 	"go/token"
 	"go/types"
+	"os"
 	"regexp"
 	"sort"
 	"strings"
@@ -623,6 +624,82 @@ func runC03(c *Ctx) {
 		c.Check(bad2 == "", "C03.R8", "NewNetworkRule: no other rewrite of the pattern", nnr.Pos(), "every other store to the pattern field stores the parsed text untransformed", bad2)
 	}
 
+	// ---------- R11: the options delimiter is searched in front of the last character only ----------
+	// A '$' that ends the rule text has no options behind it and belongs to the pattern.
+	c.Rule("C03.R11", "LIN", "the scan for the options delimiter starts at the last but one character: a final '$' stays part of the pattern", 1)
+	if prt := c.P.Func("rules", "parseRuleText"); prt == nil {
+		c.Fail("C03.R11", "anchor:parseRuleText", nnr.Pos(), "unresolved anchor")
+	} else {
+		g := NewGate(c.P)
+		g.Inline = inlineOnly()
+		s := g.Eval(prt)
+		u := g.U
+		c.Fn(FuncName(prt))
+		bad := "UNDECIDED: no backward scan for the options delimiter found"
+		for _, li := range loopInsts(g, s) {
+			ct := countedLoop(u, li.Act, li.L)
+			if os.Getenv("UFCHECK_DEBUG_C03") != "" {
+				if ct == nil {
+					fmt.Println("R11 loop: not counted")
+				} else {
+					fmt.Println("R11 loop:", ct.StepOK, ct.Step, u.Show(ct.Init))
+				}
+			}
+			if ct == nil || !ct.StepOK || ct.Step != -1 || ct.Init == nil {
+				continue
+			}
+			// the string the scan indexes
+			var T *E
+			for b := range li.L.Blocks {
+				for _, in := range b.Instrs {
+					if v, ok := in.(ssa.Value); ok {
+						e := li.Act.Env[v]
+						if e == nil {
+							continue
+						}
+						// (an index into a selected string is the selection of the indexes)
+						var parts []*E
+						okAll := true
+						for leaf := range u.Leaves(e) {
+							if leaf.Op == "index" && leaf.Args[1] == ct.Idx && leaf.Args[0].Typ != nil && isStringT(leaf.Args[0].Typ) {
+								parts = append(parts, leaf)
+							} else {
+								okAll = false
+							}
+						}
+						if okAll && len(parts) > 0 {
+							T = e
+						}
+					}
+				}
+			}
+			if T == nil {
+				continue
+			}
+			bad = ""
+			ok := true
+			for leaf, lc := range u.Leaves(ct.Init) {
+				if lc == False {
+					continue
+				}
+				tl := u.Specialize(T, lc)
+				if tl.Op != "index" {
+					bad = "UNDECIDED: the scanned string is not determined where the scan starts"
+					continue
+				}
+				L := NewLin(u)
+				want := L.linearize(u.Bin(token.SUB, u.Len(tl.Args[0]), u.Int(2), types.Typ[types.Int]))
+				got := L.linearize(leaf)
+				if !(L.entails(got, want, 0) && L.entails(want, got, 0)) {
+					ok = false
+					bad = "the scan for the options delimiter starts at " + clip(u.Show(leaf), 60) + ", documented len(text)-2: a '$' that is the last character of the rule would be taken for the delimiter and dropped from the pattern"
+				}
+			}
+			_ = ok
+		}
+		c.Check(bad == "", "C03.R11", shortFn(prt)+": delimiter scan starts at len(text)-2", prt.Pos(), "initial value of the backward scan index", bad)
+	}
+
 	// ---------- R9: the expansion constants mean what the syntax documents ----------
 	// The constants are read from the source and interpreted inside the checker (Go's regexp on the
 	// constant text, against a table of the documented cases); nothing of urlfilter runs.
@@ -686,7 +763,11 @@ func runC03(c *Ctx) {
 			// the remainder of the pattern must be able to start at any label: with the expansion
 			// followed by "example.org", sub.example.org and example.org match, notexample.org does not
 			if re2, err := regexp.Compile(K["RegexStartURL"] + "example\\.org"); err == nil && bad == "" {
-				for u, want := range map[string]bool{"http://example.org": true, "https://a.b.example.org": true, "http://notexample.org": false} {
+				// ... and only inside the host name: a query, a path, userinfo or a fragment in front of
+				// the text is not a chain of sub-domain labels
+				for u, want := range map[string]bool{"http://example.org": true, "https://a.b.example.org": true, "http://notexample.org": false,
+					"https://evil.test?next=a.example.org": false, "https://evil.test/a.example.org": false, "https://user@a.example.org": false,
+					"https://evil.test#x.example.org": false, "https://evil.test:80.example.org": false, "http://a b.example.org": false} {
 					if re2.MatchString(u) != want {
 						bad = fmt.Sprintf("'||example.org' %s %q", map[bool]string{true: "does not match", false: "matches"}[want], u)
 					}
